@@ -13,15 +13,25 @@ Definition sym_dec : forall a b : sym, {a = b} + {a <> b} := list_eq_dec Z.eq_de
 Definition dbl := option (Z * Z).           (* Some (m, e) = m * 2^e ; None = nan or infinity *)
 Definition cell := (list nat * list nat * list nat * nat)%type.   (* cX, cY, cXY, n *)
 
+(* one call of a sequence on ONE array object that is modified in place between the calls:
+   rows = the contents of the array AT THE TIME of that call *)
+Inductive step :=
+| SAce (rows : list (list Z)) (ref : list (list nat * nat)) (obs : res dbl)
+| SAmi (rows : list (list Z)) (d : Z) (ref : list cell) (obs : res dbl).
+
 Inductive case :=
 | CShannon (s : list sym) (ref : list nat) (obs : res dbl)
 | CJoint (X Y : list sym) (ref : list nat) (obs : res dbl)
 | CMI (X Y : list sym) (ref : cell) (obs : res dbl)
 | CACE (rows : list (list Z)) (ref : list (list nat * nat)) (obs : res dbl)
-| CAMI (rows : list (list Z)) (d : Z) (ref : list cell) (obs : res dbl).
+| CAMI (rows : list (list Z)) (d : Z) (ref : list cell) (obs : res dbl)
+| CSeq (steps : list step).
+
+Definition step_case (s : step) : case :=
+  match s with SAce r f o => CACE r f o | SAmi r d f o => CAMI r d f o end.
 
 (* what the model computes: the exact layer as cells, and the enclosure of the real value *)
-Definition model_out (c : case) : res (list cell * I.type) :=
+Definition model_out1 (c : case) : res (list cell * I.type) :=
   match c with
   | CShannon s _ _ => Ok ([(count_list sym_dec s, [], [], length s)], shannonI prec80 sym_dec tab80 s)
   | CJoint X Y _ _ => Ok ([([], [], joint_count_list sym_dec sym_dec X Y, length X)], jointI prec80 sym_dec sym_dec tab80 X Y)
@@ -32,6 +42,7 @@ Definition model_out (c : case) : res (list cell * I.type) :=
       | Ok cells => Ok (cells, amiI_of_cells prec80 tab80 rows d cells)
       | Raise e => Raise e
       end
+  | CSeq _ => Ok ([], I.nai)
   end.
 
 Definition reference (c : case) : list cell :=
@@ -41,11 +52,13 @@ Definition reference (c : case) : list cell :=
   | CMI _ _ ref _ => [ref]
   | CACE _ ref _ => map (fun cn => (fst cn, [], [], snd cn)) ref
   | CAMI _ _ ref _ => ref
+  | CSeq _ => []
   end.
 
 Definition observed (c : case) : res dbl :=
   match c with
   | CShannon _ _ o | CJoint _ _ _ o | CMI _ _ _ o | CACE _ _ o | CAMI _ _ _ o => o
+  | CSeq _ => Ok None
   end.
 
 Definition natlist_eqb := list_eqb Nat.eqb.
@@ -55,9 +68,27 @@ Definition cell_eqb (a b : cell) : bool :=
 
 (* agreement: same verdict (the class ValueError is part of the property); when accepted, the exact layer
    equals the reference counts and the double is finite and within 2^-30 of the enclosed real value *)
-Definition check_case (c : case) : bool :=
-  match model_out c, observed c with
+Definition check1 (c : case) : bool :=
+  match model_out1 c, observed c with
   | Ok (cells, iv), Ok (Some (m, e)) => list_eqb cell_eqb cells (reference c) && within prec80 iv m e
   | Raise e, Raise f => exc_eqb e f
   | _, _ => false
+  end.
+
+(* a sequence agrees when every call agrees with the model ON THE CONTENTS AT THAT TIME *)
+Definition check_case (c : case) : bool :=
+  match c with
+  | CSeq steps => forallb (fun s => check1 (step_case s)) steps
+  | _ => check1 c
+  end.
+
+(* printable model output; for a sequence: of the first call that disagrees (of the last call when all agree) *)
+Definition model_out (c : case) : res (list cell * I.type) :=
+  match c with
+  | CSeq steps =>
+      match filter (fun s => negb (check1 (step_case s))) steps with
+      | s :: _ => model_out1 (step_case s)
+      | [] => model_out1 (step_case (last steps (SAce [] [] (Ok None))))
+      end
+  | _ => model_out1 c
   end.
